@@ -4,7 +4,7 @@ use core::cmp::Ordering;
 use std::ops::{Add, Sub};
 
 // [trusted:stand-in] ic_btc_types::BlockHash is `[u8; 32]` with derived equality; only equality is used here.
-#[derive(PartialEq, Eq, Clone, Copy, Structural)]
+#[derive(PartialEq, Eq, Clone, Copy, Structural, Debug)]
 pub struct BlockHash(pub u64);
 
 // [trusted:stand-in] bitcoin::block::Header — opaque in this unit.
